@@ -42,30 +42,39 @@ def jobs(tier):
         for t in (1, 2, 3):
             for d in ("w", "r"):
                 A(lambda full=full, t=t, d=d: L.AxTimeoutInst(full, t, direction=d))
-    mw_small = [(0, 0, 0, 0), (0, 0, 0, 1), (1, 0, 1, 0), (1, 0, 0, 1), (0, 0, 1, 1), (1, 32, 1, 1)]
-    mr_small = [(0, 0, 0), (0, 0, 1), (1, 0, 0), (1, 0, 1), (1, 32, 1)]
-    sw_small = [(0, 0, 0, 0), (1, 1, 0, 0), (0, 0, 1, 1), (1, 0, 0, 0), (0, 1, 1, 3)]
-    for full in (False, True):
-        for t in ((1, 2, 3) if not full else (1, 2)):
-            for d in ("w", "r"):
-                A(lambda full=full, t=t, d=d: L.AxSharedInst(full, 1, 1, t, alphabet=L.ax_alphabet(1, 1, 4, d, full),
-                                                            tag="/" + d))
-    for d in ("w", "r"):
-        A(lambda d=d: L.AxSharedInst(False, 2, 1, 2, tag="/" + d, alphabet=L.ax_alphabet(
-            2, 1, 4, d, False, m_parts=mw_small[:5] + [(1, 16, 1, 1)] if d == "w" else mr_small[:4] + [(1, 16, 1)])))
-        A(lambda d=d: L.AxSharedInst(False, 1, 2, 2, tag="/" + d, alphabet=L.ax_alphabet(
-            1, 2, 4, d, False, s_parts=sw_small if d == "w" else None)))
-        A(lambda d=d: L.AxSharedInst(True, 2, 1, 1, tag="/" + d, alphabet=L.ax_alphabet(
-            2, 1, 4, d, True, m_parts=mw_small[:5] + [(1, 16, 1, 1)] if d == "w" else mr_small[:4] + [(1, 16, 1)])))
-    A(lambda: L.AxSharedInst(False, 1, 1, None, alphabet=L.ax_alphabet(1, 1, 4, "w", False), tag="/w"))
+    # The composed AXI netlists evaluate at < 1000 cycles/s and the lock counters (0..255) multiply the state
+    # space, so the product is explored breadth-first up to a transition budget (all states within a few
+    # outstanding requests of reset: every timer value x FSM state x grant x select is reached long before).
+    budget = 12000 if quick else 400000
+
+    def AX(full, n, k, t, d, m_parts=None, s_parts=None, scale=1.0):
+        alpha = L.ax_alphabet(n, k, 4, d, full, m_parts=m_parts, s_parts=s_parts)
+        A(lambda: L.AxSharedInst(full, n, k, t, alphabet=alpha, tag="/" + d),
+          max_states=max(40, int(budget * scale) // len(alpha)))
+
+    mw2 = [(0, 0, 0, 0), (0, 0, 0, 1), (1, 0, 1, 0), (1, 0, 0, 1), (0, 0, 1, 1), (1, 16, 1, 1)]   # 2 masters, 1 slave
+    mr2 = [(0, 0, 0), (0, 0, 1), (1, 0, 0), (1, 0, 1), (1, 16, 1)]
+    sw2 = [(0, 0, 0, 0), (1, 1, 0, 0), (0, 0, 1, 1), (1, 0, 0, 0), (0, 1, 1, 3)]                    # 2 slaves
+    sr2 = [(0, 0, 0, 0, 0), (1, 0, 0, 0, 0), (0, 1, 1, 0x5a, 0), (1, 1, 2, 0x3c, 0)]
+    for t in (1, 2, 3):
+        AX(False, 1, 1, t, "w")
+        AX(False, 1, 1, t, "r")
+    for t in (1, 2):
+        AX(True, 1, 1, t, "r")
+    AX(True, 1, 1, 2, "w")
+    AX(False, 2, 1, 2, "w", m_parts=mw2)
+    AX(False, 2, 1, 2, "r", m_parts=mr2)
+    AX(False, 1, 2, 2, "w", s_parts=sw2)
+    AX(False, 1, 2, 2, "r", s_parts=sr2)
+    AX(True, 2, 1, 1, "w", m_parts=mw2)
+    AX(True, 2, 1, 1, "r", m_parts=mr2 + [(1, 0, 0)])
+    AX(False, 1, 1, None, "w", scale=0.5)
     if not quick:
-        for d in ("w", "r"):
-            A(lambda d=d: L.AxSharedInst(False, 2, 2, 2, tag="/" + d, alphabet=L.ax_alphabet(
-                2, 2, 4, d, False,
-                m_parts=[(0, 0, 0, 1), (1, 0, 1, 0), (1, 16, 1, 1), (0, 16, 1, 1), (1, 32, 1, 1)] if d == "w"
-                else [(0, 0, 1), (1, 0, 1), (1, 16, 0), (1, 32, 1)],
-                s_parts=sw_small[:4] if d == "w" else [(0, 0, 0, 0, 0), (1, 0, 0, 0, 0), (0, 1, 1, 0x5a, 0), (1, 1, 1, 0x5a, 0)]),
-                max_states=3000))
+        AX(False, 2, 2, 2, "w", m_parts=[(0, 0, 0, 1), (1, 0, 1, 0), (1, 16, 1, 1), (0, 16, 1, 1), (1, 32, 1, 1)],
+           s_parts=sw2[:4])
+        AX(False, 2, 2, 2, "r", m_parts=[(0, 0, 1), (1, 0, 1), (1, 16, 0), (1, 32, 1)], s_parts=sr2)
+        AX(True, 2, 2, 3, "r", m_parts=[(0, 0, 1), (1, 0, 1), (1, 16, 0), (1, 32, 1)],
+           s_parts=[(0, 0, 0, 0, 0), (1, 0, 0, 0, 0), (0, 1, 1, 0x5a, 0), (0, 1, 1, 0x5a, 1)])
 
     # ---- mode B: realistic sizes, t in {16, 100, 128}
     B(lambda: L.WaitTimerInst(100))
@@ -96,7 +105,21 @@ def search(ctx, disagreements, proof_info):
 
 
 def probes(ctx):
-    return []
+    """Known findings (all open): the witnesses of corpus/C11/*.json replayed on the real code."""
+    out = []
+    for fid, fn in ((F_XBAR, L.probe_crossbar), (F_RESP, L.probe_response_phase), (F_STALE, L.probe_stale_response)):
+        fails, what = fn()
+        out.append((fid, fails, what))
+    # sanity of the same oracle on the configuration the theorems cover: the shared interconnects terminate a
+    # silent / unmapped request at exactly t (Wishbone ack) resp. t + 2 (AXI B/R handshake)
+    for t in (1, 4):
+        for unmapped in (False, True):
+            ok = L.wb_silent_slave_latency("shared", t, 40, unmapped) == t and \
+                all(L.ax_silent_slave_latency(full, "shared", t, 40, unmapped) == (t + 2, t + 2) for full in (False, True))
+            out.append(("C11-shared-exact-latency", not ok,
+                        "shared interconnects, timeout_cycles=%d, %s slave: termination at t / t+2" % (
+                            t, "unmapped" if unmapped else "silent")))
+    return out
 
 
 def replay(ctx, payload):
